@@ -80,3 +80,9 @@ package paillier
 //@   requires pkN != nil && k != nil && ecdsaPub != nil && wfPoint(ecdsaPub)
 //@   requires [proof-entries-present] forall i in 0..13 :: pf[i] != nil
 //@   pure
+
+//@ func (*PrivateKey).Proof
+//@   trusted prover side of the Paillier key-correctness proof (GenerateXs: goroutines, channels, floats): outside the generator subset; writes nothing the caller can see
+//@   props C06 C10
+//@   requires privateKey != nil && k != nil && ecdsaPub != nil && wfPoint(ecdsaPub)
+//@   pure
